@@ -1,18 +1,23 @@
 package pki
 
 import (
+	"bytes"
 	"context"
 	"crypto"
 	"crypto/elliptic"
 	"crypto/x509"
 	"fmt"
+	"net"
 	"sort"
 	"sync/atomic"
 	"testing"
 	"testing/synctest"
 	"time"
 
+	"google.golang.org/protobuf/proto"
+
 	"github.com/scionproto/scion/pkg/addr"
+	cppb "github.com/scionproto/scion/pkg/proto/control_plane"
 	"github.com/scionproto/scion/pkg/scrypto/cppki"
 	"github.com/scionproto/scion/private/storage/db"
 	"github.com/scionproto/scion/private/storage/trust/sqlite"
@@ -65,7 +70,8 @@ func TestC36(t *testing.T) {
 		"ending before the grace end / grace end beyond the update's own validity / update expired / update not yet valid) x key " +
 		"rings (one key; two keys, the second with no / a kept-root / an old-root chain) x every set of <=2 (quick) or <=3 " +
 		"(thorough) chains for the first key drawn from {kept, old, new, rogue root} x NotAfter {+30m, +3d(, +30d)} plus an expired " +
-		"and a not-yet-valid one; one case = one Generate call (plus Sign/Verify/expiry probes of every signer it returns) on a " +
+		"and a not-yet-valid one; one case = one Generate call (plus Sign/Verify/expiry probes of every signer it returns, the " +
+		"verification key id of every signature, and a second verifier that starts one TRC behind and must catch up) on a " +
 		"fresh DB; non-trivial = all (pairwise different configurations)"
 	ia := addr.MustIAFrom(1, 0xff0000000110)
 	core := addr.MustIAFrom(1, 0xff0000000001)
@@ -453,6 +459,48 @@ func c36Case(r *mc.Run, ia addr.IA, tl *c36Timeline, ringName string, ring c36Ri
 		if _, verr := verOther.Verify(ctx, msg, ad...); verr == nil {
 			viol("verifies-for-other-ia", "message verifies with a verifier bound to another ISD-AS")
 		}
+		// the verification key id carried by the signature (decoded with the clean-room envelope parser of C38): it
+		// has to name the signer's ISD-AS, the key of its chain and the TRC the signer was generated from; verifiers
+		// that are behind learn from it that a TRC update exists.
+		hdr, _, derr := c38DecodeHB(msg.HeaderAndBody)
+		var kid cppb.VerificationKeyID
+		if derr != nil || proto.Unmarshal(hdr.keyID, &kid) != nil {
+			viol("key-id-undecodable", fmt.Sprint(derr))
+		} else {
+			if addr.IA(kid.IsdAs) != ia || !bytes.Equal(kid.SubjectKeyId, p.s.Chain[0].SubjectKeyId) {
+				viol("key-id-names-wrong-key", fmt.Sprintf("isd_as %v subject key id %x", addr.IA(kid.IsdAs), kid.SubjectKeyId))
+			}
+			if kid.TrcBase != uint64(active.ID.Base) || kid.TrcSerial != uint64(active.ID.Serial) {
+				viol("key-id-names-wrong-trc", fmt.Sprintf("signature announces TRC base %d serial %d, the signer was generated from the active TRC base %d serial %d",
+					kid.TrcBase, kid.TrcSerial, active.ID.Base, active.ID.Serial))
+			}
+		}
+		// end to end with a verifier that is one TRC behind: its DB has the predecessor TRC and the chains only, the
+		// update can be fetched from the server. It must come to the same verdict as the up-to-date verifier.
+		if len(tl.built) == 2 {
+			r.CaseBulk(1, 1)
+			lag, err := sqlite.New(fmt.Sprintf("c36-lag-%d", c36DBCtr.Add(1)), &db.SqliteConfig{InMemory: true, MaxOpenReadConns: 2})
+			if err != nil {
+				r.HarnessError("db: %v", err)
+				return
+			}
+			lag.InsertTRC(ctx, tl.built[0])
+			for _, c := range chains {
+				lag.InsertChain(ctx, c.chain)
+			}
+			f := &c36Fetcher{trc: tl.built[1]}
+			lagVer := trust.Verifier{BoundIA: ia, BoundServer: c24Server,
+				Engine: trust.FetchingProvider{DB: lag, Recurser: trust.LocalOnlyRecurser{}, Fetcher: f}}
+			_, lerr := lagVer.Verify(ctx, msg, ad...)
+			switch {
+			case (lerr == nil) != (verr == nil):
+				viol("lagging-verifier-disagrees", fmt.Sprintf("verifier with the latest TRC: %v; verifier that starts one TRC behind (update fetchable, fetched %d time(s)): %v",
+					verr, f.calls, lerr))
+			case lerr == nil:
+				r.Outcome("verify:ok-after-catching-up")
+			}
+			lag.Close()
+		}
 	}
 	// ---- expiry: advance the bubble clock just past each expiry ----
 	sort.Slice(probes, func(i, j int) bool { return probes[i].exp.Before(probes[j].exp) })
@@ -478,6 +526,24 @@ func c36Case(r *mc.Run, ia addr.IA, tl *c36Timeline, ringName string, ring c36Ri
 	if sample {
 		r.Sample(map[string]any{"case": name, "signers": len(signers)})
 	}
+}
+
+// c36Fetcher is the remote trust-material server of the lagging verifier: it has the TRC update, no chains.
+type c36Fetcher struct {
+	trc   cppki.SignedTRC
+	calls int
+}
+
+func (f *c36Fetcher) Chains(context.Context, trust.ChainQuery, net.Addr) ([][]*x509.Certificate, error) {
+	return nil, nil
+}
+
+func (f *c36Fetcher) TRC(_ context.Context, id cppki.TRCID, _ net.Addr) (cppki.SignedTRC, error) {
+	f.calls++
+	if id != f.trc.TRC.ID {
+		return cppki.SignedTRC{}, fmt.Errorf("c36: server has no TRC %v", id)
+	}
+	return f.trc, nil
 }
 
 func c36Names(m map[*c36Chain]bool) []string {
